@@ -59,8 +59,136 @@ def locals_of(fn):
     return {x for x in stored - params - declared - defs if not x.startswith("__") and x not in dir(builtins)}
 
 
+def _terminal(stmts):
+    return bool(stmts) and isinstance(stmts[-1], (ast.Return, ast.Raise, ast.Continue, ast.Break))
+
+
+def _pure(e):
+    return isinstance(e, (ast.Name, ast.Constant)) or (isinstance(e, ast.Attribute) and _pure(e.value))
+
+
+class FlipCmp(ast.NodeTransformer):
+    """`a is b` <-> `b is a`; `a == K` <-> `K == a` for constants; `a < b` <-> `b > a` on pure operands"""
+    def visit_Compare(self, n):
+        self.generic_visit(n)
+        if len(n.ops) != 1:
+            return n
+        op, l, r = n.ops[0], n.left, n.comparators[0]
+        if not (_pure(l) and _pure(r)):
+            return n
+        if isinstance(op, (ast.Is, ast.IsNot)) or (isinstance(op, (ast.Eq, ast.NotEq)) and (
+                isinstance(l, ast.Constant) or isinstance(r, ast.Constant))):
+            n.left, n.comparators = r, [l]
+        elif isinstance(op, (ast.Lt, ast.Gt, ast.LtE, ast.GtE)):
+            n.left, n.comparators = r, [l]
+            n.ops = [{ast.Lt: ast.Gt, ast.Gt: ast.Lt, ast.LtE: ast.GtE, ast.GtE: ast.LtE}[type(op)]()]
+        return n
+
+
+class BlockRewriter(ast.NodeTransformer):
+    """applies self.rewrite(list of statements) -> list to every statement list inside functions"""
+    def generic_visit(self, node):
+        super().generic_visit(node)
+        for fld in ("body", "orelse", "finalbody"):
+            v = getattr(node, fld, None)
+            if isinstance(v, list) and v and isinstance(v[0], ast.stmt) and not isinstance(node, (ast.Module, ast.ClassDef)):
+                setattr(node, fld, self.rewrite(v))
+        return node
+
+
+class EarlyRet(BlockRewriter):
+    """`if c: ...; return` + else-branch -> the else-branch is dedented after the if"""
+    def rewrite(self, stmts):
+        out = []
+        for st in stmts:
+            if isinstance(st, ast.If) and st.orelse and _terminal(st.body):
+                rest, st.orelse = st.orelse, []
+                out.append(st)
+                out.extend(rest)
+            else:
+                out.append(st)
+        return out
+
+
+class Elseify(BlockRewriter):
+    """`if c: ...; return` followed by more statements -> those statements become the else-branch"""
+    def rewrite(self, stmts):
+        for i, st in enumerate(stmts):
+            if isinstance(st, ast.If) and not st.orelse and _terminal(st.body) and stmts[i + 1:]:
+                st.orelse = self.rewrite(stmts[i + 1:])
+                return stmts[:i + 1]
+        return stmts
+
+
+class SwapIf(ast.NodeTransformer):
+    """`if c: A else: B` -> `if not c: B else: A` (not for elif chains); `not not c` avoided"""
+    def visit_If(self, n):
+        self.generic_visit(n)
+        if n.orelse and not (len(n.orelse) == 1 and isinstance(n.orelse[0], ast.If)) and not (
+                len(n.body) == 1 and isinstance(n.body[0], ast.If)):
+            t = n.test
+            n.test = t.operand if isinstance(t, ast.UnaryOp) and isinstance(t.op, ast.Not) else ast.UnaryOp(op=ast.Not(), operand=t)
+            n.body, n.orelse = n.orelse, n.body
+        return n
+
+
+class DeMorgan(ast.NodeTransformer):
+    """`not a or not b` -> `not (a and b)`; `not (a and b)` -> `not a or not b` (and the duals)"""
+    def visit_BoolOp(self, n):
+        self.generic_visit(n)
+        if all(isinstance(v, ast.UnaryOp) and isinstance(v.op, ast.Not) for v in n.values):
+            inner = ast.BoolOp(op=ast.And() if isinstance(n.op, ast.Or) else ast.Or(), values=[v.operand for v in n.values])
+            new = ast.UnaryOp(op=ast.Not(), operand=inner)
+            new._made = True
+            return new
+        return n
+
+    def visit_UnaryOp(self, n):
+        if isinstance(n.op, ast.Not) and isinstance(n.operand, ast.BoolOp) and not getattr(n, "_made", False):
+            b = n.operand
+            vals = [self.visit(v) for v in b.values]
+            neg = [v.operand if isinstance(v, ast.UnaryOp) and isinstance(v.op, ast.Not) else ast.UnaryOp(op=ast.Not(), operand=v)
+                   for v in vals]
+            new = ast.BoolOp(op=ast.Or() if isinstance(b.op, ast.And) else ast.And(), values=neg)
+            return new
+        self.generic_visit(n)
+        return n
+
+
+class TmpVar(BlockRewriter):
+    """`f(a, g(x))` -> `_tN = g(x); f(a, _tN)` when every other argument is a pure name/constant/attribute"""
+    counter = 0
+
+    def rewrite(self, stmts):
+        out = []
+        for st in stmts:
+            call = None
+            if isinstance(st, (ast.Expr, ast.Return)) and isinstance(st.value, ast.Call):
+                call = st.value
+            elif isinstance(st, ast.Assign) and isinstance(st.value, ast.Call):
+                call = st.value
+            if call is not None and not call.keywords and _pure(call.func):
+                nested = [i for i, a in enumerate(call.args) if isinstance(a, ast.Call)]
+                if len(nested) == 1 and all(_pure(a) for i, a in enumerate(call.args) if i != nested[0]):
+                    TmpVar.counter += 1
+                    nm = "_t%d" % TmpVar.counter
+                    out.append(ast.Assign(targets=[ast.Name(id=nm, ctx=ast.Store())], value=call.args[nested[0]], lineno=st.lineno))
+                    call.args[nested[0]] = ast.Name(id=nm, ctx=ast.Load())
+            out.append(st)
+        return out
+
+
+MODES = {"flipcmp": FlipCmp, "earlyret": EarlyRet, "elseify": Elseify, "swapif": SwapIf, "demorgan": DeMorgan, "tmpvar": TmpVar}
+
+
 def transform(text, mode):
     tree = ast.parse(text)
+    if mode in MODES:
+        for node in ast.walk(tree):
+            if isinstance(node, (ast.FunctionDef, ast.AsyncFunctionDef)):
+                MODES[mode]().visit(node)
+        ast.fix_missing_locations(tree)
+        return ast.unparse(tree) + "\n"
     if mode == "rename":
         for node in ast.walk(tree):
             if isinstance(node, ast.ClassDef):
